@@ -292,19 +292,29 @@ StateAndCovariance = namedtuple("StateAndCovariance", ["state", "covariance"])
 
 
 def assert_valid_covariance(
-    covariance: NDArray, *, name: str = "Covariance", negative_tol: float = -1e-15
+    covariance: NDArray, *, name: str = "Covariance", negative_tol: float = -1e-12
 ):
     """
     Check that the covariance array is well formed:
 
     - symmetric (approximately)
     - positive semidefinite (approximately)
+
+    negative_tol is relative to the magnitude of the matrix (and absolute for
+    matrices with entries smaller than 1), because the rounding error of the
+    computed eigenvalues scales with the magnitude of the entries. An exactly
+    singular covariance (e.g. perfectly correlated states) has eigenvalues that
+    are computed as zero plus or minus that rounding error.
     """
     assert isinstance(covariance, np.ndarray)
     assert np.allclose(covariance, covariance.T)
 
-    covariance_eigenvalues = np.linalg.eig(covariance)[0]
-    if np.any(covariance_eigenvalues < negative_tol):
+    if covariance.size == 0:
+        return
+
+    covariance_eigenvalues = np.linalg.eigvalsh((covariance + covariance.T) / 2.0)
+    scale = max(1.0, float(np.max(np.abs(covariance))))
+    if np.any(covariance_eigenvalues < negative_tol * scale):
         # negative definite matrix is not a valid representation of uncertainty
         raise AssertionError(
             f"Negative {str(name)}:\n{covariance}\nEigen Values: {min(covariance_eigenvalues)}\n{covariance_eigenvalues}"
